@@ -26,6 +26,8 @@ pub struct MonState {
     pub sched_log: Vec<(usize, &'static str, [bool; 4])>,
     pub pause_counts: BTreeMap<&'static str, u64>,
     pub yields: u64,
+    /// det mode: task -> operator call that last returned Pending
+    pub last_pending: HashMap<usize, (&'static str, bool)>,
 }
 
 pub struct HarnessMonitor {
@@ -121,6 +123,9 @@ impl Monitor for HarnessMonitor {
         let task = self.current_task.load(Ordering::Relaxed);
         if task == 0 {
             return;
+        }
+        if ev.result == OpResult::Pending {
+            st.last_pending.insert(task, (ev.op_name, ev.kind == OpKind::Execute));
         }
         let mut viol: Option<String> = None;
         match ev.kind {
